@@ -62,6 +62,12 @@ Max(a, b) == IF a > b THEN a ELSE b
    collection, initial budget) by more than one allocation *)
 Pacing == (Policy = "paced") => bytes <= Max(Growth * afterLast, InitBudget) + lastSize
 
+(* Every recorded step of the real heap is a step of Pacing.tla - the pacing rule over unbounded integers, whose
+   invariant is proved inductive by Apalache and TLAPS - so the bound is not only observed on this trace but follows
+   from the rule the trace was just shown to obey.  (Paced policy only; a Reset starts a new heap.) *)
+P == INSTANCE Pacing
+RefinesPacing == [][Rec[l].e = "Reset" \/ P!Collect(bytes - bytes') \/ P!AllocStep(bytes' - bytes)]_<<bytes, threshold, afterLast, lastSize, pendingCollect>>
+
 Accepted ==
     LET d == TLCGet("stats").diameter IN
     IF d - 1 = Len(Rec) THEN TRUE
